@@ -389,6 +389,7 @@ def r4_saved_restored(ctx, fields, setters, pairing):
             if fld and core[0] == "f" and core[1] == ("*", ("param", 1)):
                 saved[fld] = core[2]
     restored = {}  # move field -> board field assigned
+    through = {}   # move field -> (board field, tree): the getter's value reaches the field through a computation
     getter_of = {v["getter"]: n for n, v in fields.items()}
     for b in un["blocks"]:
         if b["cleanup"]:
@@ -398,13 +399,29 @@ def r4_saved_restored(ctx, fields, setters, pairing):
             if d is None or len(d["p"]) != 2 or d["p"][0] != "deref" or (d["l"] != 1 and exu.local(d["l"]) != ("param", 1)):
                 continue        # (through `self`, or through a copy of it in a spliced helper)
             v = exu.rvalue(s["rv"])
-            core = v[2] if v[0] == "cast" else v
+            core = v
+            while core[0] == "cast":
+                core = core[2]
             if core[0] == "call" and core[1] in getter_of:
                 restored[getter_of[core[1]]] = d["p"][1]["name"]
+            else:
+                hit = [x for x in leaves(core) if x[0] == "call" and x[1] in getter_of]
+                if not hit:
+                    # a value assembled on several paths (a spliced helper with two returns, an if-expression):
+                    # which getters flow into it (data dependence)?
+                    from ..slice import Slicer, _rv_locals
+                    _, calls_ = Slicer(un).data_backward(sorted(_rv_locals(s["rv"])))
+                    hit = [("call", t_["callee"].get("key")) for _, t_ in calls_ if t_["callee"].get("key") in getter_of]
+                for x in hit:
+                    through.setdefault(getter_of[x[1]], {})[d["p"][1]["name"]] = core
     undo = [f_ for f_ in saved if f_ in restored or "previous" in f_]
     called = {getter_of[t_["callee"].get("key")] for b_ in un["blocks"] if not b_["cleanup"] for t_ in [b_["term"]] if t_["k"] == "call" and t_["callee"].get("key") in getter_of}
     for fld in sorted(set(undo) | {f_ for f_ in restored}):
         ok = fld in saved and fld in restored and saved[fld] == restored[fld]
+        if fld in saved and fld not in restored and saved[fld] in through.get(fld, {}):
+            ctx.ob(rid, "undo-field:%s" % fld, False, "move field %s: generation saves board field %s, but unmake assigns %s back to it: the saved value is passed through another computation instead of being restored unchanged" % (fld, saved[fld], show(through[fld][saved[fld]])[:140]),
+                   ctx.where(un), sample={"move_field": fld, "saved_from": saved.get(fld)})
+            continue
         if fld in saved and fld not in restored and fld in called:
             # unmake reads the field, but what it does with the value is not a plain assignment this rule can follow
             ctx.lost(rid, "what unmake does with the value of %s (it reads it; no plain `self.<field> = mv.%s()` found)" % (fld, fld))
